@@ -45,3 +45,11 @@ Fixpoint protocol_run_t_b (s : st) (ops : list op_t) : bool :=
   | [] => true
   | o :: ops' => protocol_hold_t_b s o && protocol_run_t_b (apply_op_t s o) ops'
   end.
+
+(* domain of the tree conjunct T1: declare_static_files is requested by the root or a step, never
+   with a static tree as the creator (the API passes the requesting step) *)
+Definition static_requester_b (o : op_t) : bool :=
+  match o with
+  | OpBase (OpDeclareStatic c _) => negb (kind_eqb (fst c) KTree)
+  | _ => true
+  end.
